@@ -74,13 +74,13 @@ func init() {
 			c.DFSBoth("c09/io-server-bad/"+pl, b, 1)
 			c.DFSBoth("c09/io-client/"+pl, b, 1)
 			c.DFS("c09/post-sse/"+pl, explore.Bounds{Preempt: 1, Dev: 1, POR: true})
-			if c.Quick() && pl != "small" && pl != "65537" && pl != "lf" && pl != "pct" {
-				continue // quick tier: the HTTP stream scenarios run for three payload classes (thorough: all seven)
+			c.DFSBoth("c09/ls-push/"+pl, b, 1) // (two writers: cheap enough for every class)
+			if c.Quick() && pl != "small" && pl != "65537" && pl != "lf" {
+				continue // quick tier: the other HTTP stream scenarios run for three payload classes (thorough: all eight)
 			}
 			c.DFSBoth("c09/get-stream/"+pl, b, 1)
 			c.DFSBoth("c09/get-resume/"+pl, b, 1)
 			c.DFSBoth("c09/ls-stream/"+pl, b, 0)
-			c.DFSBoth("c09/ls-push/"+pl, b, 1)
 			c.DFS("c09/ls-tick/"+pl, explore.Bounds{Preempt: c.Pick(2, 3), Dev: 1, POR: true})
 		}
 	})
